@@ -24,6 +24,8 @@ class Recorder:
         self.fd_path = {}
         self.enabled = True
         self.raw_ops = 0
+        self.reads = 0
+        self.read_budget = None
 
     def wants(self, path):
         return self.enabled and (self.watch is None or self.watch(path))
@@ -78,6 +80,10 @@ class FaultPlan:
         return None
 
 
+class ReadBudgetExceeded(BaseException):
+    """deterministic termination bound: more raw reads than the budget allows"""
+
+
 class RecordingRaw(io.FileIO):
     def __init__(self, path, mode, rec):
         super().__init__(path, mode)
@@ -107,6 +113,14 @@ class RecordingRaw(io.FileIO):
         n = super().write(data)
         assert n == len(data), 'short write from the OS'
         return n
+
+    def readinto(self, b):
+        rec = self._rec
+        if rec is ACTIVE and rec.read_budget is not None:
+            rec.reads += 1
+            if rec.reads > rec.read_budget:
+                raise ReadBudgetExceeded(rec.reads)
+        return super().readinto(b)
 
     def truncate(self, size=None):
         rec = self._rec
